@@ -68,6 +68,7 @@ type Unit struct {
 	quantOK   bool
 	sliceConstLen map[string]int
 	usedInvs  map[string]bool
+	hparents  map[string][]string
 }
 
 func (u *Unit) fact(f string) {
@@ -119,6 +120,9 @@ func (u *Unit) oblige(fr *Frame, s *State, class, detail, goal string, pos token
 		o.Pos = fmt.Sprintf("%s:%d", shortFile(p.Filename), p.Line)
 	}
 	u.obls = append(u.obls, o)
+	if fr == nil {
+		return
+	}
 	// assume afterwards
 	npc := u.w.newConst("pc", "Bool")
 	u.fact(eq(npc, and(s.pc, goal)))
@@ -816,7 +820,7 @@ func (u *Unit) nonnilElem(t types.Type) bool {
 
 func (u *Unit) nonnilFact(t string, ty types.Type) string {
 	if u.w.sortOf(ty) == "Iface" {
-		return fmt.Sprintf("(distinct (typ %s) T_nil)", t)
+		return fmt.Sprintf("(distinct (ityp %s) T_nil)", t)
 	}
 	return fmt.Sprintf("(distinct %s nil)", t)
 }
@@ -942,12 +946,12 @@ func (fr *Frame) binop(x *ssa.BinOp, st *State) *Val {
 			e = fmt.Sprintf("(fp.eq %s %s)", at, bt)
 		case isIface(xt):
 			if cb, ok := x.Y.(*ssa.Const); ok && cb.Value == nil {
-				e = fmt.Sprintf("(= (typ %s) T_nil)", at)
+				e = fmt.Sprintf("(= (ityp %s) T_nil)", at)
 			} else if ca, ok := x.X.(*ssa.Const); ok && ca.Value == nil {
-				e = fmt.Sprintf("(= (typ %s) T_nil)", bt)
+				e = fmt.Sprintf("(= (ityp %s) T_nil)", bt)
 			} else {
-				u.oblige(fr, st, "ifaceeq", "", implies(and(eq(fmt.Sprintf("(typ %s)", at), fmt.Sprintf("(typ %s)", bt)), not(fmt.Sprintf("(= (typ %s) T_nil)", at))),
-					fmt.Sprintf("(comparable (typ %s))", at)), x.Pos(), "comparing uncomparable dynamic types panics")
+				u.oblige(fr, st, "ifaceeq", "", implies(and(eq(fmt.Sprintf("(ityp %s)", at), fmt.Sprintf("(ityp %s)", bt)), not(fmt.Sprintf("(= (ityp %s) T_nil)", at))),
+					fmt.Sprintf("(comparable (ityp %s))", at)), x.Pos(), "comparing uncomparable dynamic types panics")
 				e = eq(at, bt)
 			}
 		default:
@@ -1059,18 +1063,18 @@ func (fr *Frame) typeAssert(x *ssa.TypeAssert, st *State) *Val {
 	if isIface(x.AssertedType) {
 		it := x.AssertedType.Underlying().(*types.Interface)
 		if it.NumMethods() == 0 {
-			ok = fmt.Sprintf("(distinct (typ %s) T_nil)", v.T)
+			ok = fmt.Sprintf("(distinct (ityp %s) T_nil)", v.T)
 		} else {
-			ok = and(fmt.Sprintf("(distinct (typ %s) T_nil)", v.T), fmt.Sprintf("(%s (typ %s))", u.implementsFn(x.AssertedType), v.T))
+			ok = and(fmt.Sprintf("(distinct (ityp %s) T_nil)", v.T), fmt.Sprintf("(%s (ityp %s))", u.implementsFn(x.AssertedType), v.T))
 		}
 		res = term(v.T, x.AssertedType)
 	} else {
 		tg := w.tag(x.AssertedType)
-		ok = fmt.Sprintf("(= (typ %s) %s)", v.T, tg)
+		ok = fmt.Sprintf("(= (ityp %s) %s)", v.T, tg)
 		srt := w.sortOf(x.AssertedType)
 		bx, ub := w.boxFn(srt)
-		un := fmt.Sprintf("(%s (val %s))", ub, v.T)
-		u.fact(implies(ok, eq(fmt.Sprintf("(%s %s)", bx, un), fmt.Sprintf("(val %s)", v.T))))
+		un := fmt.Sprintf("(%s (ival %s))", ub, v.T)
+		u.fact(implies(ok, eq(fmt.Sprintf("(%s %s)", bx, un), fmt.Sprintf("(ival %s)", v.T))))
 		rv := fr.named(x, un, x.AssertedType)
 		for _, f := range u.wfFacts(st, rv.T, x.AssertedType, 0) {
 			u.fact(implies(ok, f))
@@ -1170,31 +1174,48 @@ func rangeWithin(flo, fhi, tlo, thi string) bool {
 	return ord[tlo] <= ord[flo] && ord[fhi] <= ord[thi]
 }
 
-// int -> float: exact rounding of the mathematical integer
+// int <-> float conversions are uninterpreted functions constrained by the target range only
+// (solvers do not decide queries mixing Int, Real and FloatingPoint in useful time; stated as assumption).
 func (u *Unit) intToFloat(t string, fb, tb *types.Basic) string {
-	fs := "(_ to_fp 11 53)"
-	if tb.Kind() == types.Float32 {
-		fs = "(_ to_fp 8 24)"
+	if isNumeric(t) || strings.HasPrefix(t, "(- ") && isNumeric(strings.TrimSuffix(strings.TrimPrefix(t, "(- "), ")")) {
+		var f float64
+		if strings.HasPrefix(t, "(- ") {
+			fmt.Sscanf(strings.TrimSuffix(strings.TrimPrefix(t, "(- "), ")"), "%g", &f)
+			f = -f
+		} else {
+			fmt.Sscanf(t, "%g", &f)
+		}
+		if tb.Kind() == types.Float32 {
+			return f32Lit(float32(f))
+		}
+		return f64Lit(f)
 	}
-	return fmt.Sprintf("(%s RNE (to_real %s))", fs, t)
+	u.assume["int<->float conversions are uninterpreted functions (i2f64/i2f32/f2i_T) constrained by the target range only; int literals convert exactly"] = true
+	if tb.Kind() == types.Float32 {
+		u.w.declFun("i2f32", []string{"Int"}, F32)
+		return fmt.Sprintf("(i2f32 %s)", t)
+	}
+	u.w.declFun("i2f64", []string{"Int"}, F64)
+	return fmt.Sprintf("(i2f64 %s)", t)
 }
 
-// float -> int: truncation; out-of-range and NaN give the amd64 result (implementation specific, assumption)
 func (u *Unit) floatToInt(t string, fb, tb *types.Basic, st *State) string {
 	lo, hi := intRange(tb)
-	n := u.w.newConst("f2i", "Int")
-	r := fmt.Sprintf("(fp.to_real %s)", t)
-	tr := fmt.Sprintf("(ite (>= %s 0.0) (to_int %s) (- (to_int (- %s))))", r, r, r)
-	inr := and(not(fmt.Sprintf("(fp.isNaN %s)", t)), not(fmt.Sprintf("(fp.isInfinite %s)", t)), fmt.Sprintf("(<= %s %s)", lo, tr), fmt.Sprintf("(<= %s %s)", tr, hi))
-	bits, signed := intBits(tb)
-	if bits == 64 && signed {
-		u.fact(eq(n, ite(inr, tr, "(- 9223372036854775808)")))
-		u.assume["float->int64 of NaN/out-of-range values yields MinInt64 (amd64 behaviour; implementation-defined in the Go spec)"] = true
-	} else {
-		u.fact(implies(inr, eq(n, tr)))
-		u.fact(and(fmt.Sprintf("(<= %s %s)", lo, n), fmt.Sprintf("(<= %s %s)", n, hi)))
+	u.assume["int<->float conversions are uninterpreted functions (i2f64/i2f32/f2i_T) constrained by the target range only; int literals convert exactly"] = true
+	fs := F64
+	nm := "f64to" + tb.Name()
+	if fb.Kind() == types.Float32 {
+		fs = F32
+		nm = "f32to" + tb.Name()
 	}
-	return n
+	u.w.declFun(nm, []string{fs}, "Int")
+	r := fmt.Sprintf("(%s %s)", nm, t)
+	ck := "f2i:" + r
+	if !u.frameDone[ck] {
+		u.frameDone[ck] = true
+		u.fact(and(fmt.Sprintf("(<= %s %s)", lo, r), fmt.Sprintf("(<= %s %s)", r, hi)))
+	}
+	return r
 }
 
 func (fr *Frame) explicitPanic(x *ssa.Panic, st *State) {
